@@ -123,3 +123,42 @@ Theorem C02_byte_level_history_after_reopen : forall s sp h k v st0 ops s' outs,
     io_run m ops = Ok (m', outs) /\ simg s' m' /\ wf_state s' /\
     represents s' (fst (spec_run sp ops)) /\ outs = snd (spec_run sp ops).
 Proof. exact Io_reopen_then_history. Qed.
+
+(** AT BYTE LEVEL, ACROSS A CLOSE AND A REOPEN, OVER THE CONCRETE BUFFER (Io_sessions.v).  Two sessions:
+    creation and any history [ops1] with the buffers of the first session (any configuration), all
+    three flushed - the files on the disk; then those files opened again with ANY other buffer
+    kinds ([bk' bv' bh']: other chunk sizes) and any history [ops2], flushed again.  Every call of
+    both sessions, the open included, is served by the caches with the results of the flat
+    files; the disk after the second session is [render] of the record-level state after
+    [ops1 ++ ops2], and the independent reader recovers the ideal map's contents from it. *)
+From Aby Require Import Cache Cache_x Io_run Io_flat Io_flat_ro Io_cache Io_flat_upd Io_durable Io_sessions.
+
+Theorem C02_byte_level_two_sessions_over_any_buffer : forall t n bk bv bh ops1 bk' bv' bh' ops2,
+  1 <= n -> pow2 n -> Forall (op_wf t) (ops1 ++ ops2) -> sized (Store.create t n) (ops1 ++ ops2) ->
+  exists s2 (cf1 cf2 : fid -> list call),
+    store_run (Store.create t n) (ops1 ++ ops2) = Ok (s2, snd (spec_run ∅ (ops1 ++ ops2))) /\
+    forall ck cv ch fuel,
+      backs ck (Io.get_file (empty_st bk bv bh) FKey) ->
+      backs cv (Io.get_file (empty_st bk bv bh) FVal) ->
+      backs ch (Io.get_file (empty_st bk bv bh) FHtx) ->
+      (forall f c, In (f, c) [(FKey, ck); (FVal, cv); (FHtx, ch)] ->
+         (xrun_fuel (Rabuf.k_cs c) (flat_of (Io.get_file (empty_st bk bv bh) f)) (map call_op (cf1 f)) <= fuel)%nat) ->
+      exists dk dv dh,
+        flushed_disk fuel ck (cf1 FKey) = Ok dk /\
+        flushed_disk fuel cv (cf1 FVal) = Ok dv /\
+        flushed_disk fuel ch (cf1 FHtx) = Ok dh /\
+        forall ck' cv' ch' fuel',
+          backs ck' (Io.get_file (reopen_st dk dv dh bk' bv' bh') FKey) ->
+          backs cv' (Io.get_file (reopen_st dk dv dh bk' bv' bh') FVal) ->
+          backs ch' (Io.get_file (reopen_st dk dv dh bk' bv' bh') FHtx) ->
+          (forall f c, In (f, c) [(FKey, ck'); (FVal, cv'); (FHtx, ch')] ->
+             (xrun_fuel (Rabuf.k_cs c) (flat_of (Io.get_file (reopen_st dk dv dh bk' bv' bh') f)) (map call_op (cf2 f))
+                <= fuel')%nat) ->
+          exists dk' dv' dh',
+            flushed_disk fuel' ck' (cf2 FKey) = Ok dk' /\
+            flushed_disk fuel' cv' (cf2 FVal) = Ok dv' /\
+            flushed_disk fuel' ch' (cf2 FHtx) = Ok dh' /\
+            render s2 = Ok (dh', dk', dv') /\
+            exists s'' l, load t (dh', dk', dv') = Ok s'' /\ contents s'' = Ok l /\
+                          l ≡ₚ map_to_list (fst (spec_run ∅ (ops1 ++ ops2))).
+Proof. exact two_sessions_durable. Qed.
